@@ -47,7 +47,10 @@ static void RunIsolation(vf::BS & bs)
       }};
    // a predecessor session comes and goes first (in the victim's slot): it builds the same node shapes with ordered children everywhere,
    // so the victim's nodes are recycled ones; whatever the predecessor did must not show in the victim's fresh subtree
-   const uint32 predecessorInserts = bs.u8()%4;
+   const uint8_t pb = bs.u8(); const uint32 predecessorInserts = pb%4;
+   // in a quarter of the cases the server grants every host the add-bans and remove-bans privileges -- but not the kick privilege: KICK must still bounce
+   const bool partialPrivileges = ((pb>>2)%4 == 3);
+   if (partialPrivileges) {(void) w.server->GetCentralState().AddString("priv1", "*"); (void) w.server->GetCentralState().AddString("priv2", "*"); vf::Count("case_server_grants_ban_privileges_but_not_kick");}
    if (predecessorInserts)
    {
       w.Connect(1, "h1");
@@ -83,7 +86,7 @@ static void RunIsolation(vf::BS & bs)
       (void) op;
       const uint32 deniedBefore = deniedReplies;
       (void) w.Send(0, cmd); w.Pump();
-      if (privileged) {privilegedSent++; if (deniedReplies != deniedBefore+1) vf::Fail("a privileged command (%s) from an unprivileged session did not bounce with PR_RESULT_ERRORACCESSDENIED", d.c_str());}
+      if ((privileged)&&((partialPrivileges == false)||(wc == PR_COMMAND_KICK))) {privilegedSent++; if (deniedReplies != deniedBefore+1) vf::Fail("a privileged command (%s) from a session without that privilege%s did not bounce with PR_RESULT_ERRORACCESSDENIED", d.c_str(), partialPrivileges ? " (it holds the ban privileges only)" : "");}
       const std::string now = Snap(w, 1);
       if (now != snap0) vf::Fail("the victim's state was changed by the adversary command [%s]: before %s after %s", d.c_str(), Esc(snap0).substr(0, 700).c_str(), Esc(now).substr(0, 700).c_str());
       if (witnessSawVictimPaths.size()) vf::Fail("after the adversary command [%s] a subscriber of the victim's nodes was sent [%s]", d.c_str(), witnessSawVictimPaths[0].c_str());
